@@ -28,9 +28,16 @@ func NewTofu(registry *template.Registry) *Tofu {
 // used. In particular, note that struct properties are converted to lowerCamel
 // by default, since that is the Soy naming convention. The caller may update
 // those options to change the behavior of this function.
-func (tofu Tofu) Render(wr io.Writer, name string, obj interface{}) error {
+func (tofu Tofu) Render(wr io.Writer, name string, obj interface{}) (err error) {
 	var m data.Map
 	if obj != nil {
+		// (the conversion panics on a value that no Soy value can be made of - a
+		// channel, a map with integer keys: that is an error of this render.)
+		defer func() {
+			if e := recover(); e != nil && err == nil {
+				err = fmt.Errorf("invalid data: %v", e)
+			}
+		}()
 		var ok bool
 		m, ok = data.New(obj).(data.Map)
 		if !ok {
